@@ -30,9 +30,89 @@
      C13_call_name_irrelevant   and the name plays no role in a call
      C13_import_many            import of several macros = their definitions in a row
      C13_first_call_allowed     (table) the bound is positive: calls from depth 0 pass the guard *)
+(* ---- second part (statements appended below) ---- *)
+(* Property C13 - macros, second part: recursion through macros is bounded for ALL macros.
+
+   "Runaway recursion - direct or mutual, through local or imported macros - ends in an
+   execution error after a fixed depth instead of exhausting the stack."
+
+   How the executor model (Model/Exec.v) bounds it: [call_macro] counts one level up on the
+   depth counter [f_depth] of the frame the macro was bound in (the DEFINING frame, number
+   [fidx] from the bottom of the frame stack) for the duration of the call, and refuses
+   (Err 3) when the counter would exceed [max_macro_depth] (gen/Tables.v).  Props/C13.v says
+   what one call does (C13_depth_limit, C13_depth_counts) and that particular families of
+   macros end in Err 3.  This file is about every execution, whatever the templates, the
+   context and the macros are:
+
+     - the counters of all frames are within 0 .. max_macro_depth in every state in which one
+       of the 17 functions of the executor starts ([depths_ok], a safety invariant);
+     - a call that returns leaves every counter as it was;
+     - a frame's counter IS the number of active calls of macros bound in that frame, so
+       there are never more than max_macro_depth of them.
+
+   Vocabulary (Spec/SpecDepth.v): [call] = one invocation of one of the 17 functions (fuel,
+   start state, arguments); [run c] = what it returns (RDone st' / ROutOfFuel / RFailed);
+   [sub c c'] = invocation c makes the direct recursive call c' (a transcript of the call
+   sites of Model/Exec.v); [path c0 callers c] = c0 calls ... calls c, [callers] being the
+   invocations that are active when c starts (the call stack, outermost first);
+   [macro_calls_on i callers] = how many of them are calls of a macro bound in frame i;
+   [reachable c] = c happens in the execution of some template started on the empty stack.
+
+   What each theorem contributes:
+     C13_depth_restored            a call of any of the 17 functions that returns leaves the
+                                   counters of all frames as they were
+     C13_depths_ok_preserved       ... hence the invariant holds again afterwards
+     C13_depths_ok_at_call_sites   every call site starts its callee in a state satisfying the
+                                   invariant, if the caller was started in one
+     C13_every_call_listed         [sub] misses no call site: an invocation with fuel left runs
+                                   out of fuel only if a call listed by [sub] does (or the
+                                   template compiler run by a lazy include does)
+     C13_listed_calls_happen       and lists no call that is not made: if a listed call runs out
+                                   of fuel, so does the caller ([sub] is the call relation)
+     C13_calls_use_fuel            every listed call runs on one unit of fuel less
+     C13_depths_ok_along_calls     the invariant along a whole chain of nested calls
+     C13_depths_ok_reachable       the invariant in every state in which a node, an expression,
+                                   ... starts executing, from any root state, for any template
+                                   and any context
+     C13_call_site_counts          one call site: the counter of a frame that caller and callee
+                                   both see is the same, one more if the caller is a call of a
+                                   macro bound in that frame
+     C13_new_frames_start_at_zero  one call site: frames the caller does not have start at 0
+     C13_macro_call_guarded        a macro call that gets as far as calling anything found its
+                                   defining frame's counter below the bound
+     C13_depth_counts_active_calls along a chain of nested calls during which frame i stays in
+                                   view: counter of frame i at the end = counter at the start +
+                                   number of active calls of macros bound in frame i
+     C13_nesting_bounded           ... so that number never exceeds max_macro_depth
+     C13_nesting_bounded_reachable the same inside an execution (no hypothesis on the state)
+     C13_frames_pushed_by          one call site adds at most one frame, and only call_macro,
+                                   Super, for, with and the entry into a template do
+     C13_stack_height              the stack grows by at most the number of such active
+                                   invocations (of which the macro calls are bounded per
+                                   defining frame by C13_nesting_bounded)
+     C13_height_unbounded_for_arbitrary_trees
+                                   NEGATIVE: there is no bound on the height of the frame stack
+                                   that holds for all syntax trees: a tree whose block table
+                                   makes a block contain itself (the parser never builds one)
+                                   reaches every height, given fuel, without any macro
+     C13b_example_two_active_calls the hypotheses of the chain theorems hold of a concrete run
+                                   of {% macro m() %}{{ m() }}{% endmacro %}{{ m() }}
+     C13b_macro_depth_nonneg       (table) the bound is not negative: fresh frames are within it
+
+   Not proved: a bound on the HEIGHT of the frame stack in terms of the static nesting depth
+   of the templates and max_macro_depth.  For arbitrary trees there is none (see above; also a
+   lazy include may include itself); for trees as the parser builds them, without lazy
+   includes, the height is at most exponential in the nesting depth (every frame has at most
+   max_macro_depth + 1 live children: macro calls on it, and the frame directly above it), but
+   that needs an invariant tying every closure to the code of its defining frame and is not
+   done here. *)
 From PV Require Import Model.Exec Model.Api Spec.SpecFlow.
 From PV Require Import gen.Tables.
 From PV Require Import gen.Scalar Tie.C13.
+From Coq Require Import List ZArith.
+From PV Require Import Model.Exec Spec.SpecFlow Spec.SpecDepth.
+From PV Require Import Tie.C13b.
+Import ListNotations.
 Open Scope N_scope.
 
 (* ------------------------------------------------------------------ the call *)
@@ -279,3 +359,154 @@ Theorem C13_depth_guard_is_the_code : forall d : Z,
   (- two63 <= d < two63 - 1)%Z -> go_macro_refuses d = (max_macro_depth <? d + 1)%Z.
 Proof. exact e2_macro_guard. Qed.
 Print Assumptions C13_depth_guard_is_the_code.
+
+
+(* ==================== second part ==================== *)
+
+(* ------------------------------------------------------------------ what a call leaves behind *)
+
+Theorem C13_depth_restored :
+  forall se globals c st',
+    run se globals c = RDone st' -> depths st' = depths (call_state c).
+Proof. exact tie_depth_restored. Qed.
+Print Assumptions C13_depth_restored.
+
+Theorem C13_depths_ok_preserved :
+  forall se globals c st',
+    run se globals c = RDone st' -> depths_ok (call_state c) -> depths_ok st'.
+Proof. exact tie_depths_ok_preserved. Qed.
+Print Assumptions C13_depths_ok_preserved.
+
+(* ------------------------------------------------------------------ the invariant at every call *)
+
+Theorem C13_depths_ok_at_call_sites :
+  forall se globals c c',
+    sub se globals c c' -> depths_ok (call_state c) -> depths_ok (call_state c').
+Proof. exact tie_sub_depths_ok. Qed.
+Print Assumptions C13_depths_ok_at_call_sites.
+
+(* the list of call sites is complete: fuel runs out in a call at fuel 0 and every caller hands
+   that up, so a call site missing from [sub] would make this false *)
+Theorem C13_every_call_listed :
+  forall se globals c,
+    call_fuel c <> 0%nat -> run se globals c = ROutOfFuel ->
+    (exists c', sub se globals c c' /\ run se globals c' = ROutOfFuel) \/ compiler_out_of_fuel se c.
+Proof. exact tie_every_call_listed. Qed.
+Print Assumptions C13_every_call_listed.
+
+Theorem C13_listed_calls_happen :
+  forall se globals c c',
+    sub se globals c c' -> run se globals c' = ROutOfFuel -> run se globals c = ROutOfFuel.
+Proof. exact tie_listed_calls_happen. Qed.
+Print Assumptions C13_listed_calls_happen.
+
+Theorem C13_calls_use_fuel :
+  forall se globals c c', sub se globals c c' -> call_fuel c = S (call_fuel c').
+Proof. exact tie_sub_fuel. Qed.
+Print Assumptions C13_calls_use_fuel.
+
+Theorem C13_depths_ok_along_calls :
+  forall se globals c0 callers c,
+    path se globals c0 callers c -> depths_ok (call_state c0) -> depths_ok (call_state c).
+Proof. exact tie_path_depths_ok. Qed.
+Print Assumptions C13_depths_ok_along_calls.
+
+(* from any root state (a template started on the empty stack, any fuel, any id counter), for
+   any template and any context *)
+Theorem C13_depths_ok_reachable :
+  forall se globals c, reachable se globals c -> depths_ok (call_state c).
+Proof. exact tie_reachable_depths_ok. Qed.
+Print Assumptions C13_depths_ok_reachable.
+
+(* ------------------------------------------------------------------ the counter counts *)
+
+Theorem C13_call_site_counts :
+  forall se globals c c' i d d',
+    sub se globals c c' ->
+    depth_at (call_state c) i = Some d -> depth_at (call_state c') i = Some d' ->
+    d' = (d + Z.of_nat (enters c i))%Z.
+Proof. exact tie_sub_depth_at. Qed.
+Print Assumptions C13_call_site_counts.
+
+Theorem C13_new_frames_start_at_zero :
+  forall se globals c c' i d',
+    sub se globals c c' ->
+    depth_at (call_state c) i = None -> depth_at (call_state c') i = Some d' -> d' = 0%Z.
+Proof. exact tie_sub_new_frame_depth. Qed.
+Print Assumptions C13_new_frames_start_at_zero.
+
+Theorem C13_macro_call_guarded :
+  forall se globals f st m fidx args c',
+    sub se globals (KCallMacro f st m fidx args) c' ->
+    exists d, depth_at st fidx = Some d /\ (d + 1 <= max_macro_depth)%Z.
+Proof. exact tie_sub_macro_guard. Qed.
+Print Assumptions C13_macro_call_guarded.
+
+(* frame i is in view of every invocation of the chain: it is the same frame throughout (the
+   stack only changes above the frames an active invocation sees, or is cut down to the
+   defining frame while a macro's defaults are evaluated) *)
+Theorem C13_depth_counts_active_calls :
+  forall se globals c0 callers c,
+    path se globals c0 callers c -> forall i d0,
+    (forall k, In k (callers ++ [c]) -> (i < height (call_state k))%nat) ->
+    depth_at (call_state c0) i = Some d0 ->
+    depth_at (call_state c) i = Some (d0 + Z.of_nat (macro_calls_on i callers))%Z.
+Proof. exact tie_path_depth_counts. Qed.
+Print Assumptions C13_depth_counts_active_calls.
+
+Theorem C13_nesting_bounded :
+  forall se globals c0 callers c i,
+    depths_ok (call_state c0) -> path se globals c0 callers c ->
+    (forall k, In k (callers ++ [c]) -> (i < height (call_state k))%nat) ->
+    (Z.of_nat (macro_calls_on i callers) <= max_macro_depth)%Z.
+Proof. exact tie_nesting_bounded. Qed.
+Print Assumptions C13_nesting_bounded.
+
+Theorem C13_nesting_bounded_reachable :
+  forall se globals c0 callers c i,
+    reachable se globals c0 -> path se globals c0 callers c ->
+    (forall k, In k (callers ++ [c]) -> (i < height (call_state k))%nat) ->
+    (Z.of_nat (macro_calls_on i callers) <= max_macro_depth)%Z.
+Proof. exact tie_reachable_nesting_bounded. Qed.
+Print Assumptions C13_nesting_bounded_reachable.
+
+(* ------------------------------------------------------------------ the height of the stack *)
+
+Theorem C13_frames_pushed_by :
+  forall se globals c c',
+    sub se globals c c' ->
+    (height (call_state c') <= S (height (call_state c)))%nat /\
+    (height (call_state c') = S (height (call_state c)) -> pushes_frame c = true).
+Proof. exact tie_sub_height. Qed.
+Print Assumptions C13_frames_pushed_by.
+
+Theorem C13_stack_height :
+  forall se globals c0 callers c,
+    path se globals c0 callers c ->
+    (height (call_state c) <= height (call_state c0) + pushers callers)%nat.
+Proof. exact tie_path_height. Qed.
+Print Assumptions C13_stack_height.
+
+Theorem C13_height_unbounded_for_arbitrary_trees :
+  forall se (g : gstate) (n : nat), exists c,
+    reachable se [] c /\ (n <= height (call_state c))%nat.
+Proof. exact tie_self_block_height_unbounded. Qed.
+Print Assumptions C13_height_unbounded_for_arbitrary_trees.
+
+(* ------------------------------------------------------------------ instances *)
+
+(* a run of ex_template (Spec/SpecDepth.v): c0 executes the template's nodes, c the body of the
+   second nested call of m; frame 0 (the root frame, where m is bound) is in view throughout,
+   two calls of m are active and the root frame's counter went from 0 to 2 *)
+Example C13b_example_two_active_calls :
+  exists c0 callers c,
+    reachable ex_env [] c0 /\ path ex_env [] c0 callers c /\
+    (forall k, In k (callers ++ [c]) -> (0 < height (call_state k))%nat) /\
+    macro_calls_on 0 callers = 2%nat /\
+    depth_at (call_state c0) 0 = Some 0%Z /\ depth_at (call_state c) 0 = Some 2%Z.
+Proof. exact ex_two_active_calls. Qed.
+Print Assumptions C13b_example_two_active_calls.
+
+Theorem C13b_macro_depth_nonneg : (0 <=? max_macro_depth)%Z = true.
+Proof. exact tie_macro_depth_nonneg. Qed.
+Print Assumptions C13b_macro_depth_nonneg.
